@@ -160,6 +160,31 @@ fn run_on_this_thread(input: RunInput) -> RunOutput {
         }
     }
     let h = hist::take();
+    if std::env::var("VERIF_DUMP_TOMB").is_ok() {
+        crate::simdev::DISK.with(|d| {
+            let d = d.borrow();
+            for w in d.writes.iter().filter(|w| w.part == 0) {
+                let mut v = vec![];
+                for (i, c) in w.data.chunks_exact(16).enumerate() {
+                    let h = u64::from_be_bytes(c[0..8].try_into().unwrap());
+                    let s = u64::from_be_bytes(c[8..16].try_into().unwrap());
+                    if s != 0 || h != 0 {
+                        v.push(format!("{i}:h{h}s{s}"));
+                    }
+                }
+                eprintln!("  tomb write #{} gen{} issue@{} off{}: {:?}", w.idx, w.generation, w.issue_seq, w.offset, v);
+            }
+            if let Some(p0) = d.parts.first() {
+                for (i, c) in p0.chunks_exact(16).enumerate().take(4096) {
+                    let h = u64::from_be_bytes(c[0..8].try_into().unwrap());
+                    let s = u64::from_be_bytes(c[8..16].try_into().unwrap());
+                    if s != 0 || h != 0 {
+                        eprintln!("  tomb slot {i}: hash {h} seq {s}");
+                    }
+                }
+            }
+        });
+    }
     if std::env::var("VERIF_TRACE").is_ok() {
         for e in &h.events {
             eprintln!("  #{:<4} t{:<3} {:<14} {} {} {}", e.seq, e.task, e.kind, e.a, e.b, e.c);
